@@ -98,12 +98,28 @@ fn main() {
         "run" => {
             let text = std::fs::read_to_string(&args[2]).expect("vh: cannot read batch file");
             let progs = ir::parse_batch(&text);
+            // Every program runs on a fresh OS thread: an execution that ends while a task is suspended
+            // in the middle of unwinding leaves the std panic count of its OS thread raised for good
+            // (`std::thread::panicking()` stays true), which would leak into the next program.
+            let same_thread = std::env::var("VH_SAME_THREAD").is_ok();
             for p in progs {
                 let p = Arc::new(p);
                 writeln!(out, "=== {}", p.name).unwrap();
-                for l in run_program(&p) {
+                let lines = if same_thread {
+                    run_program(&p)
+                } else {
+                    let p2 = p.clone();
+                    std::thread::Builder::new()
+                        .stack_size(64 << 20)
+                        .spawn(move || run_program(&p2))
+                        .unwrap()
+                        .join()
+                        .unwrap_or_else(|_| vec!["E harness-thread-panicked".to_string()])
+                };
+                for l in lines {
                     writeln!(out, "{}", l).unwrap();
                 }
+                out.flush().unwrap();
             }
         }
         "codec" => {
